@@ -96,6 +96,16 @@ def gen_session_errors(repo):
     if not m:
         raise ParseError('execute_request: deadline branch not understood')
     out += f'(* execute_request: the deadline branch returns *)\nDefinition deadline_error : request_error := Re{m.group(1)}.\n'
+    # the transmission is bounded: timeout(request.timeout, io.write(..)) measured from the start of the write; the reply
+    # deadline is then measured from the END of the write
+    m = re.search(r'match\s+tokio::time::timeout\(\s*request\.timeout\s*,\s*io\.write\(\s*bytes\s*,\s*self\.decode\.physical\s*\)\s*\)\s*\.await\s*\{'
+                  r'\s*Ok\(\s*res\s*\)\s*=>\s*res\?\s*,\s*Err\(\s*_\s*\)\s*=>\s*return\s+Err\(\s*RequestError::([A-Za-z]+)\s*\(\s*std::io::ErrorKind::TimedOut\s*\)\s*\)\s*,?\s*\}'
+                  r'\s*let\s+deadline\s*=\s*Instant::now\(\)\s*\+\s*request\.timeout\s*;', ex)
+    if not m:
+        raise ParseError('execute_request: the write is not `match tokio::time::timeout(request.timeout, io.write(..)).await { Ok(res) => res?, Err(_) => return Err(RequestError::Io(TimedOut)) }` followed by the reply deadline')
+    if m.group(1) not in req_names:
+        raise ParseError('execute_request: unknown error for a timed-out write')
+    out += f'(* execute_request: a write that is not done request.timeout after it began returns (payload TimedOut) *)\nDefinition write_timeout_error : request_error := Re{m.group(1)}.\n'
     drop = re.search(r'impl<T>\s+Drop\s+for\s+Promise<T>[^{]*\{\s*fn\s+drop\(&mut\s+self\)\s*\{\s*self\.failure\(\s*RequestError::([A-Za-z]+)\s*\)\s*;?\s*\}', msg, re.S)
     if not drop:
         raise ParseError('Promise::drop not understood')
